@@ -1,0 +1,53 @@
+//go:build verif
+
+package analysis
+
+// Contracts for the deductive verifier in /verif (govc). Comment-only file: with or without
+// the `verif` build tag it adds no declaration to the package.
+
+//@ pred hasPrefix(p string, r string) bool = len(r) <= len(p) && (forall k int :: 0 <= k && k < len(r) ==> p[k] == r[k])
+
+// r is the directory p itself or one of its ancestors (component-wise, not character-wise)
+//@ pred isDirAncestor(r string, p string) bool = r == p || (0 < len(r) && len(r) < len(p) && hasPrefix(p, r) && (p[len(r)] == '/' || r[len(r)-1] == '/'))
+
+// ---------------------------------------------------------------- C17
+
+//@ func commonPrefix
+//@   props C17
+//@   requires len(paths) > 0
+//@   ensures result == "" || (forall i int :: 0 <= i && i < len(paths) ==> isDirAncestor(result, paths[i]))
+//@   loop 1 invariant 0 <= index && index <= len(first) && first == paths[0]
+//@   loop 1 invariant forall p, k int :: 0 <= p && p < len(paths) && 0 <= k && k < index ==> k < len(paths[p]) && paths[p][k] == first[k]
+//@   loop 1 decreases len(first) - index
+//@   loop 2 index j
+//@   loop 2 invariant forall p int :: 0 <= p && p < j ==> index < len(paths[p]) && paths[p][index] == c
+
+//@ func selectByFile
+//@   props C17
+//@   requires forall i int :: 0 <= i && i < len(pkgs) ==> pkgs[i] != nil
+//@   ensures result != nil ==> (exists i, j int :: 0 <= i && i < len(pkgs) && pkgs[i] == result && 0 <= j && j < len(pkgs[i].GoFiles) && pkgs[i].GoFiles[j] == file)
+//@   ensures result == nil ==> (forall i, j int :: 0 <= i && i < len(pkgs) && 0 <= j && j < len(pkgs[i].GoFiles) ==> pkgs[i].GoFiles[j] != file)
+//@   loop 1 index i
+//@   loop 1 invariant forall a, b int :: 0 <= a && a < i && 0 <= b && b < len(pkgs[a].GoFiles) ==> pkgs[a].GoFiles[b] != file
+//@   loop 2 index j
+//@   loop 2 invariant forall b int :: 0 <= b && b < j ==> pkg.GoFiles[b] != file
+
+//@ func LoadSources
+//@   props C17
+//@   requires len(sourceFiles) > 0
+//@   ensures result3 == nil ==> len(result1) == len(sourceFiles)
+//@   ensures result3 == nil ==> (forall i int :: 0 <= i && i < len(sourceFiles) ==> result1[i] != nil && (exists j int :: 0 <= j && j < len(result1[i].GoFiles) && result1[i].GoFiles[j] == filepath.Abs(sourceFiles[i])))
+//@   ensures result3 == nil ==> (forall i int :: 0 <= i && i < len(sourceFiles) ==> isDirAncestor(result2, filepath.Dir(filepath.Abs(sourceFiles[i]))))
+//@   ensures (exists i int :: 0 <= i && i < len(sourceFiles) && second(os.Stat(sourceFiles[i])) != nil) ==> result3 != nil
+//@   ensures result3 == nil ==> packages.PrintErrors(onceResult("golang.org/x/tools/go/packages.Load", 1, "[]*packages.Package")) == 0
+//@   ensures result3 == nil ==> onceResult("golang.org/x/tools/go/packages.Load", 2, "error") == nil
+//@   loop 1 index i1
+//@   loop 1 invariant len(dirs) == len(sourceFiles) && len(patterns) == len(sourceFiles)
+//@   loop 1 invariant forall k int :: 0 <= k && k < i1 ==> second(os.Stat(sourceFiles[k])) == nil && dirs[k] == filepath.Dir(filepath.Abs(sourceFiles[k]))
+//@   loop 2 index i2
+//@   loop 2 invariant len(out) == len(sourceFiles)
+//@   loop 2 invariant forall k int :: 0 <= k && k < i2 ==> out[k] != nil && (exists j int :: 0 <= j && j < len(out[k].GoFiles) && out[k].GoFiles[j] == filepath.Abs(sourceFiles[k]))
+
+//@ func LoadSource
+//@   props C17
+//@   ensures result2 == nil ==> result1 != nil && (exists j int :: 0 <= j && j < len(result1.GoFiles) && result1.GoFiles[j] == filepath.Abs(sourceFile))
